@@ -153,7 +153,13 @@ func genC03(r *rand.Rand, run int, tier string) *vm.Plan {
 		}
 	}
 	// an extra block must not fail a check of its own (the twins are compared on everything else)
+	twinLim := bigDur
 	if o := ref.Authorize(&ref.Token{Blocks: append([]ref.Block{auth}, seq...)}, az, 400); true {
+		if r.Intn(4) == 0 && !o.Uncertain && o.Class != ref.VLimit && o.Class != ref.VOther {
+			// a fact limit just above the largest single scope of the longer lineage: what one block
+			// holds or derives is not charged to any other
+			twinLim = &vm.Lim{MaxDurNs: 1e9, MaxFacts: o.MaxSize() + 1 + r.Intn(3)}
+		}
 		for i := range seq {
 			if !isExtra[i] || len(seq[i].Checks) == 0 {
 				continue
@@ -193,8 +199,8 @@ func genC03(r *rand.Rand, run int, tier string) *vm.Plan {
 			qs = append(qs, ref.Rule{Head: ref.Pred{Name: "query"}, Body: q.Body[:1]})
 		}
 	}
-	h.add(vm.Op{K: "verify", A: tl, KS: &vm.KeySel{Key: key}, Az: &az, Qs: qs, Lim: bigDur, Name: "twin"})
-	h.add(vm.Op{K: "verify", A: tx, KS: &vm.KeySel{Key: key}, Az: &az, Qs: qs, Lim: bigDur, Name: "twin", Map: perm})
+	h.add(vm.Op{K: "verify", A: tl, KS: &vm.KeySel{Key: key}, Az: &az, Qs: qs, Lim: twinLim, Name: "twin"})
+	h.add(vm.Op{K: "verify", A: tx, KS: &vm.KeySel{Key: key}, Az: &az, Qs: qs, Lim: twinLim, Name: "twin", Map: perm})
 	// the authorizer's facts arrive in two instalments with an evaluation in between: what is added
 	// after a first Authorize is as visible to every block as what was there before it (twin: a
 	// fresh authorizer that is given everything at once)
@@ -382,6 +388,14 @@ func genC12(r *rand.Rand, run int, tier string) *vm.Plan {
 		}
 		qs = append(qs, ref.Rule{Head: p, Body: []ref.Pred{p}})
 	}
+	// a quarter of the groups run under a fact limit just above what the request needs: neither
+	// the presentation nor a repeated Authorize may cost facts
+	lim := bigDur
+	if r.Intn(4) == 0 {
+		if o := ref.Authorize(&ref.Token{Blocks: append([]ref.Block{auth}, blocks...)}, az, 400); !o.Uncertain && o.Class != ref.VLimit && o.Class != ref.VOther {
+			lim = &vm.Lim{MaxDurNs: 1e9, MaxFacts: o.MaxSize() + 1 + r.Intn(3)}
+		}
+	}
 	k := 2 + r.Intn(3)
 	for rep := 0; rep < k; rep++ {
 		// token content presented in another order (a different token with the same sets)
@@ -411,7 +425,7 @@ func genC12(r *rand.Rand, run int, tier string) *vm.Plan {
 		if r.Intn(2) == 0 {
 			n = 1 + r.Intn(2)
 		}
-		h.add(vm.Op{K: "verify", A: t, KS: &vm.KeySel{Key: key}, Az: &paz, Qs: qs, Perm: perm, N: n, Lim: bigDur, Name: "replica", Flags: []string{"permute-checks"}})
+		h.add(vm.Op{K: "verify", A: t, KS: &vm.KeySel{Key: key}, Az: &paz, Qs: qs, Perm: perm, N: n, Lim: lim, Name: "replica", Flags: []string{"permute-checks"}})
 	}
 	return h.p
 }
